@@ -622,11 +622,17 @@ pub fn simulate(base: &Path, cfg: txtpp::Config, sched: &Sched, opts: &SimOpts) 
 
     loop {
         let mut st = sim.st.lock().unwrap();
-        let t0 = Instant::now();
+        // real-time limits are counted in 250 ms waits that really timed out, not in elapsed wall
+        // time: a machine that was suspended or stalled does not turn into a verdict
+        let mut ticks: u32 = 0;
+        let wd_ticks = (opts.watchdog.as_millis() / 250).max(1) as u32;
         while !quiescent(&st) {
             let (g, to) = sim.cv.wait_timeout(st, Duration::from_millis(250)).unwrap();
             st = g;
-            if to.timed_out() && t0.elapsed() > Duration::from_secs(2) {
+            if to.timed_out() {
+                ticks += 1;
+            }
+            if to.timed_out() && ticks > 8 {
                 // nobody is running except tasks that were released to send: they are blocked in send
                 let others_running = st.coord == CS::Running
                     || st.release.is_some()
@@ -647,7 +653,7 @@ pub fn simulate(base: &Path, cfg: txtpp::Config, sched: &Sched, opts: &SimOpts) 
                     continue;
                 }
             }
-            if to.timed_out() && t0.elapsed() > opts.watchdog {
+            if to.timed_out() && ticks > wd_ticks {
                 hang = Some(format!(
                     "watchdog: no quiescence after {:?}; coord {:?}; tasks {:?}",
                     opts.watchdog,
